@@ -417,9 +417,17 @@ OPTIONS:
 	//parse options
 	if intf.TimestampResolution.Binary() {
 		//negative power of 2
+		if intf.TimestampResolution.Exponent() > 63 {
+			// 2^exponent doesn't fit into secondMask
+			return fmt.Errorf("Unsupported timestamp resolution 2^-%d", intf.TimestampResolution.Exponent())
+		}
 		intf.secondMask = 1 << intf.TimestampResolution.Exponent()
 	} else {
 		//negative power of 10
+		if intf.TimestampResolution.Exponent() > 19 {
+			// 10^exponent doesn't fit into secondMask
+			return fmt.Errorf("Unsupported timestamp resolution 10^-%d", intf.TimestampResolution.Exponent())
+		}
 		intf.secondMask = 1
 		for j := uint8(0); j < intf.TimestampResolution.Exponent(); j++ {
 			intf.secondMask *= 10
